@@ -11,7 +11,7 @@ ST = j1939.ControllerApplication.State
 REQ = 0x10
 
 
-def h_request(ex, cas, requester='normal', dll='j1939-21', req_addr=REQ):
+def h_request(ex, cas, requester='normal', dll='j1939-21', req_addr=REQ, echo=False):
     """cas: list of [claim history, preferred address] for the responder stack"""
     w = W.World(ex, mode='interleave')
     r = w.add_node('R', dll=dll)
@@ -22,7 +22,15 @@ def h_request(ex, cas, requester='normal', dll='j1939-21', req_addr=REQ):
         ca, held = make_ca(w, s, hist, addr, ident=100 + i)
         calls = []
         ca.subscribe_request(lambda src, dest, pgn, calls=calls: (w.callback_fired(), calls.append((src, dest, pgn))))
-        resp.append({'ca': ca, 'held': held, 'calls': calls, 'i': i})
+        resp.append({'ca': ca, 'held': held, 'calls': calls, 'i': i, 'node': 'S'})
+    if echo:
+        # the requester's interface echoes its own frames (python-can receive_own_messages): the CAs of the requesting
+        # stack - the requester itself and a second CA - are addressees like everybody else
+        rca2, rheld2 = make_ca(w, r, 'bypassed', req_addr + 1, ident=6)
+        for j, (ca_, held_) in enumerate(((rca, rheld), (rca2, rheld2))):
+            calls = []
+            ca_.subscribe_request(lambda src, dest, pgn, calls=calls: (w.callback_fired(), calls.append((src, dest, pgn))))
+            resp.append({'ca': ca_, 'held': held_, 'calls': calls, 'i': 10 + j, 'node': 'R'})
     base = len(w.log)
     pgn = ex.fresh_int('requested_pgn', 0, (1 << 18) - 1)
     dest = ex.fresh_int('dest', 0, 255)
@@ -31,6 +39,9 @@ def h_request(ex, cas, requester='normal', dll='j1939-21', req_addr=REQ):
         rca.send_request(0, pgn, dest)
     except RuntimeError as e:
         raised = e
+    if echo and raised is None:
+        for f in [f for f in w.log[base:] if f['src'] == 'R'][:1]:
+            w.inject(r, f['id'], list(f['data']))
     w.run(until=w.now + T('1/50'))   # transitional claim states (wait_veto, lost_waiting) outlast this window
     is_claim_req = bool(pgn == 0xEE00)
     if requester != 'normal':
@@ -38,7 +49,7 @@ def h_request(ex, cas, requester='normal', dll='j1939-21', req_addr=REQ):
         ex.claim('requester_without_address_raises', (raised is not None) == (not is_claim_req))
     else:
         ex.claim('request_accepted', raised is None)
-    sent = [f for f in w.log[base:] if f['src'] == 'R']
+    sent = [f for f in w.log[base:] if f['src'] == 'R' and bool(ids.id_fields(f['id'])['pf'] == 0xEA)]
     src_addr = req_addr if requester == 'normal' else 254
     if raised is None:
         ex.claim('one_request_frame', len(sent) == 1)
@@ -46,7 +57,7 @@ def h_request(ex, cas, requester='normal', dll='j1939-21', req_addr=REQ):
         ex.claim('request.frame', sym_and(fld['pf'] == 0xEA, fld['ps'] == dest, fld['sa'] == src_addr, fld['dp'] == 0, fld['edp'] == 0,
                                           len(sent[0]['data']) == 3,
                                           sym_eq_seq(sent[0]['data'], [pgn % 256, (pgn // 256) % 256, pgn // 65536])))
-    answers = [f for f in w.log[base:] if f['src'] == 'S']
+    answers = [f for f in w.log[base:] if f['src'] == 'S' or (f['src'] == 'R' and not bool(ids.id_fields(f['id'])['pf'] == 0xEA))]
 
     def same_addr(c):
         return any(o is not c and o['held'] is not None and o['held'] == c['held'] for o in resp)
@@ -57,6 +68,8 @@ def h_request(ex, cas, requester='normal', dll='j1939-21', req_addr=REQ):
         mine = []
         for f in answers:
             fld = ids.id_fields(f['id'])
+            if f['src'] != c['node']:
+                continue
             if c['held'] is not None and bool(fld['sa'] == c['held']):
                 # several CAs of one stack may hold the same address (claiming bypassed): an address-claimed frame
                 # belongs to the CA whose NAME it carries
@@ -80,7 +93,7 @@ def h_request(ex, cas, requester='normal', dll='j1939-21', req_addr=REQ):
     # no frame from an address nobody holds
     for f in answers:
         fld = ids.id_fields(f['id'])
-        ex.claim('answers_only_from_held_addresses', any(c['held'] is not None and bool(fld['sa'] == c['held']) for c in resp), {'id': f['id']})
+        ex.claim('answers_only_from_held_addresses', any(c['held'] is not None and c['node'] == f['src'] and bool(fld['sa'] == c['held']) for c in resp), {'id': f['id']})
     ex.observe('calls', [c['calls'] for c in resp])
     ex.observe('answers', [[f['id'], f['data']] for f in answers])
     ex.witness()
@@ -132,6 +145,9 @@ def jobs(tier):
     for ra in (0, 253):
         out.append(Job('C14', 'c14:h_request', {'cas': [['bypassed', 0x20], ['bypassed', 0x21]], 'requester': 'normal', 'req_addr': ra}, W=40, wall=120, validate=1))
     out.append(Job('C14', 'c14:h_request', {'cas': [['bypassed', 0], ['normal_immediate', 1]], 'requester': 'normal', 'req_addr': 0x10}, W=40, wall=120, validate=1))
+    # the requesting stack hears its own request (interface echo)
+    out.append(Job('C14', 'c14:h_request', {'cas': [['bypassed', 0x20]], 'requester': 'normal', 'echo': True}, W=40, wall=120, validate=1))
+    out.append(Job('C14', 'c14:h_request', {'cas': [['normal_veto', 128], ['bypassed', 0x20]], 'requester': 'normal', 'echo': True, 'req_addr': 0x40}, W=40, wall=120, validate=1))
     return out
 
 
